@@ -128,6 +128,23 @@ def s1_sites(repo, modules: set[str] | None = None):
                     a, b = _effects(branches["GRAPH"].body), _effects(branches["GRAPHS"].body)
                     ok = a == b
                     yield f, head, ok, f"GRAPH branch does {sorted(a)} but GRAPHS branch does {sorted(b)}", f"GRAPH {sorted(a)} / GRAPHS {sorted(b)}"
+        # table-driven dispatch: a module-level dict keyed by attribute types, consulted with `<table>.get(<attr>.type)` / `<table>[<attr>.type]`
+        # - what follows the lookup is one piece of code for both kinds, so the siblings agree when the table names both
+        for n in own_nodes(f.node):
+            tab = key = None
+            if isinstance(n, ast.Call) and isinstance(n.func, ast.Attribute) and n.func.attr == "get" and isinstance(n.func.value, ast.Name) and n.args:
+                tab, key = n.func.value.id, n.args[0]
+            elif isinstance(n, ast.Subscript) and isinstance(n.value, ast.Name) and isinstance(n.ctx, ast.Load):
+                tab, key = n.value.id, n.slice
+            if tab is None or not (isinstance(key, ast.Attribute) and key.attr == "type"):
+                continue
+            d = f.module.assigns.get(tab)
+            if not isinstance(d, ast.Dict):
+                continue
+            kinds = {_attr_type_const(k_) for k_ in d.keys if k_ is not None} - {None}
+            if not kinds & {"GRAPH", "GRAPHS"}:
+                continue
+            yield f, n, kinds >= {"GRAPH", "GRAPHS"}, f"the dispatch table `{tab}` names {sorted(kinds & {'GRAPH', 'GRAPHS'})} only", f"table {sorted(kinds)}"
 
 
 # ------------------------------------------------------------------------------------------------------
@@ -1632,12 +1649,27 @@ def ref_attr_guards(f: FuncInfo):
     accessor raises TypeError), every dispatch is reached only for attributes that are not
     references: an `is_ref()` test that leaves the iteration (`continue`) or encloses the dispatch precedes it."""
     out = []
+    # a table-driven dispatch (`get = TABLE.get(attr.type)` with TABLE keyed by GRAPH / GRAPHS) is a dispatch as well: the statement
+    # of the lookup stands for the branch
+    table_sites = []
     for n in own_nodes(f.node):
-        if not isinstance(n, ast.If):
+        if isinstance(n, ast.Call) and isinstance(n.func, ast.Attribute) and n.func.attr == "get" and isinstance(n.func.value, ast.Name) and n.args \
+                and isinstance(n.args[0], ast.Attribute) and n.args[0].attr == "type":
+            d = f.module.assigns.get(n.func.value.id)
+            if isinstance(d, ast.Dict) and {_attr_type_const(k_) for k_ in d.keys if k_ is not None} & {"GRAPH", "GRAPHS"}:
+                st = n
+                while getattr(st, "_parent", None) is not None and not isinstance(st, ast.stmt):
+                    st = st._parent
+                table_sites.append(st)
+    for n in list(own_nodes(f.node)):
+        if n in table_sites:
+            k = ("in", {"GRAPH", "GRAPHS"})
+        elif not isinstance(n, ast.If):
             continue
-        k = _test_kind(n.test)
-        if not k or not any(isinstance(x, ast.Attribute) and x.attr in ("value", "as_graph", "as_graphs") for st in n.body for x in ast.walk(st)):
-            continue
+        else:
+            k = _test_kind(n.test)
+            if not k or not any(isinstance(x, ast.Attribute) and x.attr in ("value", "as_graph", "as_graphs") for st in n.body for x in ast.walk(st)):
+                continue
         p = getattr(n, "_parent", None)
         if isinstance(p, ast.If) and p.orelse == [n] and _test_kind(p.test):
             continue  # an elif of a chain that was counted at its head
